@@ -614,7 +614,9 @@ class TrajectoryStore:
                     fs = FieldSet.from_registry(fs_name)
                     for f, metadata in fs.fields.items():
                         if Dimension.SPECIES in metadata.dimensions:
-                            species.update(getattr(associated_data, f).keys())
+                            # Optional fields may be unset.
+                            if getattr(associated_data, f) is not None:
+                                species.update(getattr(associated_data, f).keys())
 
                 nc_info = self._create_nc_file(
                     associated_file,
@@ -1609,14 +1611,19 @@ class TrajectoryStore:
                     nc_files.species or [],
                 )
                 data[name] = val
-                if Dimension.POINT in field.dimensions and npoints is None:
+                if (
+                    Dimension.POINT in field.dimensions
+                    and npoints is None
+                    and val is not None
+                ):
                     if Dimension.SPECIES in field.dimensions:
                         # Get number of points from arbitrary entry in the
-                        # SpeciesValues dictionary here.
-                        npoints = len(next(iter(data[name].values())))
+                        # SpeciesValues dictionary here (if there is one).
+                        if len(val) > 0:
+                            npoints = len(next(iter(val.values())))
                     else:
                         # Data should be a simple Numpy array here.
-                        npoints = len(data[name])
+                        npoints = len(val)
 
         # Construct the return trajectory.
         assert npoints is not None
@@ -1681,7 +1688,9 @@ class TrajectoryStore:
                 elif data is not None:
                     val = getattr(data, name)
 
-                self._write_to_nc_var(var, index, name, field, val)
+                self._write_to_nc_var(
+                    var, index, name, field, val, nc_file.species or []
+                )
                 nc_file.traj_var[0][index] = index
 
     def _write_to_nc_var(
@@ -1691,8 +1700,13 @@ class TrajectoryStore:
         name: str,
         field: FieldMetadata,
         val: Any,
+        species: list[Species],
     ) -> None:
-        """Write a value to a NetCDF variable at the given index."""
+        """Write a value to a NetCDF variable at the given index.
+
+        Species-indexed values are written at the position of each species in
+        `species`, the list of species making up the species dimension of the
+        NetCDF file containing the variable."""
 
         # Handle missing values.
         if val is None:
@@ -1706,6 +1720,18 @@ class TrajectoryStore:
         # variable length types of the appropriate base type.
         has_sp = Dimension.SPECIES in field.dimensions
         has_tm = Dimension.THRUST_MODE in field.dimensions
+
+        # The species dimension of a NetCDF file is fixed when the file is
+        # created: refuse values for species that have no place in it rather
+        # than dropping them or writing them to another species' position.
+        if has_sp:
+            unknown = [sp.name for sp in val if sp not in species]
+            if len(unknown) > 0:
+                raise ValueError(
+                    f'Data field "{name}" at index {index} has values for species '
+                    f'{unknown} not in the species dimension of the NetCDF file'
+                )
+
         match (has_sp, has_tm):
             case (False, False):
                 # float, np.ndarray
@@ -1716,12 +1742,12 @@ class TrajectoryStore:
                     var[index, ti] = val[tm]
             case (True, False):
                 # SpeciesValues[float], SpeciesValues[np.ndarray]
-                for si, sp in enumerate(Species):
+                for si, sp in enumerate(species):
                     if sp in val:
                         var[index, si] = val[sp]
             case (True, True):
                 # SpeciesValues[ThrustModeValues]
-                for si, sp in enumerate(Species):
+                for si, sp in enumerate(species):
                     for ti, tm in enumerate(ThrustMode):
                         if sp in val and tm in val[sp]:
                             var[index, si, ti] = val[sp][tm]
@@ -1739,11 +1765,27 @@ class TrajectoryStore:
         # Make sure the netCDF4 package doesn't return masked arrays.
         var.set_auto_mask(False)
 
+        # Entries of a variable that have never been written read back as the
+        # variable's fill value (numeric types), as an empty string (strings)
+        # or as an empty array (variable length types).
+        has_point = Dimension.POINT in field.dimensions
+        fill = None
+        if not has_point and field.field_type is not str:
+            fill = var.get_fill_value()
+
+        def written(v: Any) -> bool:
+            if fill is None:
+                return len(v) > 0
+            return v != fill
+
         # Read data from NetCDF variable, handling species and thrust modes.
+        # Species and thrust mode entries that were never written are skipped,
+        # and an optional value with no entries at all is a missing value.
+        val: Any
         match (
             Dimension.SPECIES in field.dimensions,
             Dimension.THRUST_MODE in field.dimensions,
-            Dimension.POINT in field.dimensions,
+            has_point,
         ):
             case (False, False, False):
                 # float
@@ -1757,26 +1799,36 @@ class TrajectoryStore:
                 return var[index]
             case (True, False, False) | (True, False, True):
                 # SpeciesValues[float] | SpeciesValues[np.ndarray]
-                return SpeciesValues(
-                    {sp: var[index, si] for si, sp in enumerate(species)}
-                )
+                val = SpeciesValues()
+                for si, sp in enumerate(species):
+                    v = var[index, si]
+                    if written(v):
+                        val[sp] = v
             case (False, True, False):
                 # ThrustModeValues
-                return ThrustModeValues(
-                    {tm: var[index, ti] for ti, tm in enumerate(ThrustMode)}
-                )
+                val = ThrustModeValues(self._read_thrust_modes(var, written, index))
             case (True, True, False):
                 # SpeciesValues[ThrustModeValues]
-                return SpeciesValues[ThrustModeValues](
-                    {
-                        sp: ThrustModeValues(
-                            {tm: var[index, si, ti] for ti, tm in enumerate(ThrustMode)}
-                        )
-                        for si, sp in enumerate(species)
-                    }
-                )
+                val = SpeciesValues[ThrustModeValues]()
+                for si, sp in enumerate(species):
+                    tmv = self._read_thrust_modes(var, written, index, si)
+                    if len(tmv) > 0:
+                        val[sp] = ThrustModeValues(tmv)
             case _:
                 raise ValueError(f'Invalid combination of dimensions for field {name}')
+        if len(val) == 0 and not field.required:
+            return None
+        return val
+
+    @staticmethod
+    def _read_thrust_modes(var: nc4.Variable, written, *index: int) -> dict:
+        """Read the thrust mode entries that have been written at an index."""
+        tmv = {}
+        for ti, tm in enumerate(ThrustMode):
+            v = var[*index, ti]
+            if written(v):
+                tmv[tm] = v
+        return tmv
 
     def _check_file_paths(self, paths: list[PathType], mode: FileMode) -> None:
         # Ensure all input paths are distinct.
